@@ -18,8 +18,10 @@ PROPS = {
         check_module="C08Check",
         theorems={
             "C08_resolve_outcomes": [],
-            "C08_resolve_direct_agrees_partial": [],
-            "C08_resolve_direct_miss_partial": [],
+            "C08_resolve_agrees": [],
+            "C08_resolve_sound": [],
+            "C08_resolve_complete": [],
+            "C08_resolve_errors": [],
             "C08_duplicate_name_rejected": [],
             "C08_std_module_rejected": [],
             "C08_no_main_rejected": [],
